@@ -201,7 +201,7 @@ Proof.
   - rewrite Hh, <- Hk, get_put_eq. reflexivity.
   - replace (next_vals s') with (c_next x) by reflexivity. now rewrite get_put_eq.
   - now rewrite get_put_eq.
-  - repeat split; auto. intros Hc. lia.
+  - split; [exact Wnx|]. split; [exact Wn|]. split; [exact Hih|]. intros Hc. lia.
   - now left.
   - intros si [<-|Hi]; [lia|]. specialize (Ile si Hi). lia.
   - assert (Hvs : has (d_vi d) (next_vals s)).
